@@ -330,7 +330,7 @@ impl SimInstr {
                 Ok(Self::STI(sr, off))
             },
             OP_JMP => {
-                word.slice(9..11).assert_equals(0b00)?;
+                word.slice(9..12).assert_equals(0b000)?;
                 let reg = word.slice(6..9).interpret();
                 word.slice(0..6).assert_equals(0b000_000)?;
                 Ok(Self::JMP(reg))
